@@ -1905,6 +1905,80 @@ Proof.
   apply bind_inv in Hc as (u0 & sg & Hpj & Hc). destruct u0.
   apply bind_inv in Hc as (u0 & sq & Hpop2 & Hc). destruct u0.
   apply bind_inv in Hc as (u0 & sr & Hpl & Hes2). destruct u0.
+  (* 1. begin_scope *)
+  apply begin_scope_e in Hbs. rewrite (p_d _ _ _ _ _ _ _ _ _ _ _ _ Hpre) in Hbs.
+  pose proof (step_piece [] [] _ _ _ _ _ _ _ _ _ _ _ _ _ _ _ _ Hbs (p_L _ _ _ _ _ _ _ _ _ _ _ _ Hpre) (p_len _ _ _ _ _ _ _ _ _ _ _ _ Hpre) ltac:(intros; constructor) Hpre) as P1.
+  pose proof (S_pre_nextT _ _ _ _ _ _ _ _ _ _ _ _ _ _ _ _ _ _ _ _ _ _ Hpre P1) as Hp1.
+  (* 2. the loop variable, declared but not yet initialised *)
+  assert (Hdl : length (k_locals (s_cur s1)) < 256).
+  { pose proof (declare_variable_len _ _ _ _ _ Hdv ltac:(rewrite (p_d _ _ _ _ _ _ _ _ _ _ _ _ Hp1); discriminate)). pose proof (p_len _ _ _ _ _ _ _ _ _ _ _ _ Hp1). lia. }
+  apply declare_variable_e in Hdv as [[Hz _]|[Hz Hs2]]; [rewrite (p_d _ _ _ _ _ _ _ _ _ _ _ _ Hp1) in Hz; discriminate|].
+  rewrite (p_d _ _ _ _ _ _ _ _ _ _ _ _ Hp1) in Hs2.
+  assert (HLi : Lrel (SC.mkLocal (Some i) None false :: L) (mkKL (tr_name i) None false :: k_locals (s_cur s1))).
+  { constructor; [repeat split|exact (p_L _ _ _ _ _ _ _ _ _ _ _ _ Hp1)]. }
+  pose proof (step_piece [] [] _ _ _ _ _ _ _ _ _ _ _ _ _ _ _ _ Hs2 HLi ltac:(cbn [length]; lia) ltac:(intros; constructor) Hp1) as P2.
+  pose proof (S_pre_nextT _ _ _ _ _ _ _ _ _ _ _ _ _ _ _ _ _ _ _ _ _ _ Hp1 P2) as Hp2.
+  destruct (step_fields _ _ _ _ _ _ Hs2) as (_ & Hl2 & _).
+  assert (Hlen1 : length (k_locals (s_cur s1)) = lv) by (unfold lv; symmetry; exact (F2_length _ _ _ (p_L _ _ _ _ _ _ _ _ _ _ _ _ Hp1))).
+  assert (Hlv : length (k_locals (s_cur s2)) - 1 = lv) by (rewrite Hl2; cbn [length]; lia).
+  rewrite Hlv in Hms, Hsl2.
+  (* 3. Nil *)
+  apply emit_op_e in Hnil.
+  pose proof (bytes_piece [opb OpNil] [SC.INil] _ _ _ _ _ _ _ _ _ _ _ _ _ Hnil ltac:(intros; apply crel_one; one_simple) Hp2) as P3.
+  pose proof (S_pre_nextT _ _ _ _ _ _ _ _ _ _ _ _ _ _ _ _ _ _ _ _ _ _ Hp2 P3) as Hp3.
+  (* 4. the range 0..n *)
+  change (cexpr (LRange (LNum 0 (tr_num 0)) (LNum 0 (tr_num (N.of_nat n))) 0))
+    with (cexpr (tr_expr (SL.ELit 0));;; cexpr (tr_expr (SL.ELit (N.of_nat n)));;; emit_op OpBuildRange 0%N) in Hit.
+  apply bind_inv in Hit as (u0 & s4 & Hr0 & Hit). destruct u0. apply bind_inv in Hit as (u0 & s5 & Hrn & Hbr). destruct u0.
+  pose proof (E_allg (SL.ELit 0) eq_refl Hp0 _ U E _ _ _ _ _ eq_refl Hr0 (p_L _ _ _ _ _ _ _ _ _ _ _ _ Hp3) (p_U _ _ _ _ _ _ _ _ _ _ _ _ Hp3) (p_E _ _ _ _ _ _ _ _ _ _ _ _ Hp3)) as PA.
+  destruct (E_post_rel _ _ _ _ _ PA) as (HUa & HEa).
+  pose proof (p_L _ _ _ _ _ _ _ _ _ _ _ _ Hp3) as HL3. rewrite <- (E_post_locals _ _ _ _ _ PA) in HL3.
+  pose proof (E_allg (SL.ELit (N.of_nat n)) eq_refl Hpn _ U E _ _ _ _ _ eq_refl Hrn HL3 HUa HEa) as PB.
+  destruct (E_post_rel _ _ _ _ _ PB) as (HUb & HEb). apply emit_op_e in Hbr.
+  assert (PC : E_post s5 s6 [SC.IBuildRange] U E).
+  { apply (E_post_emit _ _ _ _ _ _ Hbr); auto. intros; apply crel_one; one_simple. }
+  pose proof (E_post_seq _ _ _ _ _ _ _ _ _ PA (E_post_seq _ _ _ _ _ _ _ _ _ PB PC)) as PR.
+  pose proof (S_post_E _ _ _ _ _ _ _ _ _ _ _ _ _ _ _ _ Hp3 PR) as P4. destruct P4 as (T4 & m4 & kl4 & N4 & P4).
+  pose proof (S_pre_nextT _ _ _ _ _ _ _ _ _ _ _ _ _ _ _ _ _ _ _ _ _ _ Hp3 P4) as Hp6.
+  (* 5. the loop variable becomes initialised *)
+  assert (Hl6 : k_locals (s_cur s6) = mkKL (tr_name i) None false :: k_locals (s_cur s1)).
+  { rewrite (E_post_locals _ _ _ _ _ PR). destruct Hnil as (_ & Hr & _). unfold rest in Hr. injection Hr; intros. congruence. }
+  pose proof (mark_slot_head _ _ _ _ _ _ _ _ Hms Hl6 (eq_sym Hlen1)) as Hs7. rewrite (p_d _ _ _ _ _ _ _ _ _ _ _ _ Hp6) in Hs7.
+  assert (HLi2 : Lrel (SC.mkLocal (Some i) (Some (S d)) false :: L) (mkKL (tr_name i) (Some (S d)) false :: k_locals (s_cur s1))).
+  { constructor; [repeat split|exact (p_L _ _ _ _ _ _ _ _ _ _ _ _ Hp1)]. }
+  pose proof (step_piece [] [] _ _ _ _ _ _ _ _ _ _ _ _ _ _ _ _ Hs7 HLi2 ltac:(cbn [length]; lia) ltac:(intros; constructor) Hp6) as P5.
+  pose proof (S_pre_nextT _ _ _ _ _ _ _ _ _ _ _ _ _ _ _ _ _ _ _ _ _ _ Hp6 P5) as Hp7.
+  (* 6. the hidden iterator local *)
+  apply add_local_e in Hal as [(Hok1 & Hne & Hs8)|Hok1]; subst ok; [|cbn in Hok; discriminate].
+  cbn in Hok. unfold cret in Hok. inversion Hok; subst s8'. clear Hok.
+  destruct (step_fields _ _ _ _ _ _ Hs7) as (_ & Hl7 & _). rewrite Hl7, (p_d _ _ _ _ _ _ _ _ _ _ _ _ Hp7) in Hs8. rewrite Hl7 in Hne. cbn [length] in Hne.
+  set (hid := bs "... temp-iter-var ...") in *.
+  assert (HLh0 : Lrel (SC.mkLocal None None false :: SC.mkLocal (Some i) (Some (S d)) false :: L)
+                      (mkKL hid None false :: mkKL (tr_name i) (Some (S d)) false :: k_locals (s_cur s1))).
+  { constructor; [repeat split|exact HLi2]. }
+  pose proof (step_piece [] [] _ _ _ _ _ _ _ _ _ _ _ _ _ _ _ _ Hs8 HLh0 ltac:(cbn [length]; lia) ltac:(intros; constructor) Hp7) as P6.
+  pose proof (S_pre_nextT _ _ _ _ _ _ _ _ _ _ _ _ _ _ _ _ _ _ _ _ _ _ Hp7 P6) as Hp8.
+  (* 7. Invoke iter *)
+  pose proof (iter_ok _ _ _ _ _ _ _ _ _ Hsl Hic Hinv Hb0 (p_U _ _ _ _ _ _ _ _ _ _ _ _ Hp8) (p_E _ _ _ _ _ _ _ _ _ _ _ _ Hp8)) as PI.
+  pose proof (S_post_E _ _ _ _ _ _ _ _ _ _ _ _ _ _ _ _ Hp8 PI) as P7. destruct P7 as (T7 & m7 & kl7 & N7 & P7).
+  pose proof (S_pre_nextT _ _ _ _ _ _ _ _ _ _ _ _ _ _ _ _ _ _ _ _ _ _ Hp8 P7) as Hp9.
+  (* 8. the iterator local becomes initialised *)
+  destruct (step_fields _ _ _ _ _ _ Hs8) as (_ & Hl8 & _).
+  assert (Hl9 : k_locals (s_cur s9) = mkKL hid None false :: mkKL (tr_name i) (Some (S d)) false :: k_locals (s_cur s1))
+    by (rewrite (E_post_locals _ _ _ _ _ PI); exact Hl8).
+  assert (Hz9 : k_scope (s_cur s9) <> 0) by (rewrite (p_d _ _ _ _ _ _ _ _ _ _ _ _ Hp9); discriminate).
+  pose proof (mark_initialised_e _ _ _ _ _ _ _ Hmi Hl9 Hz9) as Hs10. rewrite (p_d _ _ _ _ _ _ _ _ _ _ _ _ Hp9) in Hs10.
+  assert (HLh : Lrel Lh (mkKL hid (Some (S d)) false :: mkKL (tr_name i) (Some (S d)) false :: k_locals (s_cur s1))).
+  { constructor; [repeat split|exact HLi2]. }
+  pose proof (step_piece [] [] _ _ _ _ _ _ _ _ _ _ _ _ _ _ _ _ Hs10 HLh ltac:(cbn [length]; lia) ltac:(intros; constructor) Hp9) as P8.
+  pose proof (S_pre_nextT _ _ _ _ _ _ _ _ _ _ _ _ _ _ _ _ _ _ _ _ _ _ Hp9 P8) as Hp10.
+  pose proof (S_postT_seq' _ _ _ _ _ _ _ _ _ _ _ _ _ _ _ _ _ _ _ _ _ _ _ _ _ _ P1 P2 ltac:(possolve)) as Q2.
+  pose proof (S_postT_seq' _ _ _ _ _ _ _ _ _ _ _ _ _ _ _ _ _ _ _ _ _ _ _ _ _ _ Q2 P3 ltac:(possolve)) as Q3.
+  pose proof (S_postT_seq' _ _ _ _ _ _ _ _ _ _ _ _ _ _ _ _ _ _ _ _ _ _ _ _ _ _ Q3 P4 ltac:(possolve)) as Q4.
+  pose proof (S_postT_seq' _ _ _ _ _ _ _ _ _ _ _ _ _ _ _ _ _ _ _ _ _ _ _ _ _ _ Q4 P5 ltac:(possolve)) as Q5.
+  pose proof (S_postT_seq' _ _ _ _ _ _ _ _ _ _ _ _ _ _ _ _ _ _ _ _ _ _ _ _ _ _ Q5 P6 ltac:(possolve)) as Q6.
+  pose proof (S_postT_seq' _ _ _ _ _ _ _ _ _ _ _ _ _ _ _ _ _ _ _ _ _ _ _ _ _ _ Q6 P7 ltac:(possolve)) as Q7.
+  pose proof (S_postT_seq' _ _ _ _ _ _ _ _ _ _ _ _ _ _ _ _ _ _ _ _ _ _ _ _ _ _ Q7 P8 ltac:(possolve)) as Ppre.
   admit_placeholder.
 Qed.
 
